@@ -3727,10 +3727,18 @@ class BindMacro(Macro):
                 print('goal', goal)
                 raise VeriTException("bind", "can't map lhs quantified variables to rhs")
 
+        # Only the equations x = y of the renaming are discharged.
+        renaming = list(zip(l_vars, r_vars))
         remain_hyps = []
         for hyp in prem.hyps:
-            if not (hyp.is_equals() and hyp.lhs in l_vars):
+            if not (hyp.is_equals() and (hyp.lhs, hyp.rhs) in renaming):
                 remain_hyps.append(hyp)
+
+        # The renamed variables are local to the context: the premise says nothing about
+        # a free occurrence of one of them in the result.
+        for v in l_vars + r_vars:
+            if goal.occurs_var(v) or any(hyp.occurs_var(v) for hyp in remain_hyps):
+                raise VeriTException("bind", "variable %s of the context is free in the result" % v)
 
         return Thm(goal, tuple(remain_hyps))
 
